@@ -169,13 +169,45 @@ def run(ctx, res):
                                       dict(kind="relabel-raises", date=impl.iso(o), error=str(ex)[:500]), True)
             if len(res.samples) < 3:
                 res.samples.append(dict(unit="A vs A+B", date=impl.iso(o), rows_A=len(dfA), rows_B=len(dfB), p_ids_A=pidsA[:8], first_p_ids_B=list(dfB["p_id"])[:5]))
+    # a LARGE other population: many self-sufficient children under 25 (each forms an own needs unit numbered by a counter) before A;
+    # A = a single parent with such a child, then an unrelated single: ids built from counters must not run into the next family
+    for o in [x for x in dates[:1] if x in ds]:
+        d = metam.dag_for(o)
+        year = int(impl.iso(o)[:4])
+        nodes = metam.default_nodes(d)
+        A = closed_population(rnd, year, 1, 0, 0, "dense", tpl=["self_sufficient_child"]) + closed_population(rnd, year, 1, 50, 50, "dense", tpl=["single"])
+        dfA = popgen.to_frame(A)
+        try:
+            outA, _ = engine.simulate(dfA, o, targets=nodes)
+        except Exception as ex:  # noqa: BLE001
+            stats["skipped"][f"{impl.iso(o)}#big"] = f"{type(ex).__name__}: {str(ex)[:100]}"
+            continue
+        pidsA = list(dfA["p_id"])
+        for want in ((99, 100, 101) if ctx.tier == "quick" else (98, 99, 100, 101, 199, 200)):
+            B = []
+            k = 0
+            while sum(1 for q in B if q["alter"] < 25 and q["eigenbedarf_gedeckt"]) < want:
+                B += closed_population(rnd, year, 1, 200000 + 10 * k, 9000 + k, "dense", tpl=["self_sufficient_child"])
+                k += 1
+            joint = pd.concat([popgen.to_frame(B), dfA], ignore_index=True)
+            try:
+                outJ, _ = engine.simulate(joint, o, targets=nodes)
+            except Exception as ex:  # noqa: BLE001
+                res.add_violation(f"joint-raises:{type(ex).__name__}", f"A simulates alone but A after {want} other self-sufficient children fails on {impl.iso(o)}: {type(ex).__name__}: {str(ex)[:200]}",
+                                  dict(kind="joint-raises", date=impl.iso(o), order=f"B({want})+A", error=str(ex)[:500]), True)
+                continue
+            stats["joint_runs"] += 1
+            stats["large_other_population_runs"] = stats.get("large_other_population_runs", 0) + 1
+            outJ = outJ.copy()
+            outJ["__p"] = joint["p_id"].to_numpy()
+            compare(outA, outJ.set_index("__p").loc[pidsA], pidsA, nodes, f"simulating after {want} self-sufficient children of other households", o, res, stats, exact=False)
     res.evaluations += stats["joint_runs"] + stats["relabellings"]
     res.distinct += stats["joint_runs"] + stats["relabellings"]
     res.extra["engine"] = stats
     res.rule = ("per date: two generated populations A and B closed under pointers with disjoint ids; every node of the default targets' graph is "
                 "computed for A alone and for A+B, B+A and an interleaving, and compared per person of A (same dtype; equal, or within 1e-9 where "
                 "only float summation order can differ — counted as float_noise_only; ids: same partition); then A with p_id / hh_id replaced by "
-                "random other non-negative integers, consistently in all pointer columns. distinct = distinct joint / relabelled runs.")
+                "A is also simulated after 99 / 100 / 101 (thorough: up to 200) self-sufficient children under 25 of other households (own needs units numbered by counters). random other non-negative integers, consistently in all pointer columns. distinct = distinct joint / relabelled runs.")
 
 
 def replay(payload):
